@@ -677,6 +677,9 @@ def run_fit(op: Op, U, cfg: Dict[str, Any], constraint: Any, dtype: torch.dtype,
     rng_seed = data_seed % (2**31)
     torch.manual_seed(rng_seed)
     fr.inputs_u = au
+    if cfg.get("_positional"):
+        from .instruments import PositionalProxy
+        U = PositionalProxy(U)  # the same call with every argument up to the last given one passed by position
     with ScaleSpy() as spy:
         try:
             yu = op.call_u(U, au, cfg, constraint)
